@@ -16,6 +16,14 @@ and sends the scalar results (cm cells, rates, thresholds, swap) to the Lean mod
 `runHistory` on the same query list (DISAGREE on mismatch) and evaluates the Lean predicates
 `Spec.C10.repeatFlags` (same question -> same observation, aliases resolved) and the shape
 predicates on the implementation's own observations.
+
+Second tie for clause (e) (no mutation of the object / of a caller's array): on every run `harness/effects.py`
+translates the CURRENT source of scores/cm/metrics/utils/roc_curve.py into the effect IR of
+`lean/SA/Model/Effects.lean`, the Lean kernel checks the generated bodies (`generated_c10_effects_ok`), and
+`SA.Effects.C10_effects_no_mutation` (proved for all bodies) gives "no cell allocated at entry changes" for every
+covered function.  A definite violation found there is a broken proof obligation (the history runner then
+searches for a failing input); an `unknown` is recorded as "not covered by the effect model" (hooks:
+`extra_gate_start` / `extra_gate_finish` below).
 """
 from __future__ import annotations
 
@@ -48,17 +56,30 @@ EXPLANATION = ("The Lean theorems (C10_pure, C10_repeat, C10_elementwise_*, C10_
                "on histories: byte-for-byte snapshots of pos/neg/easy counts/flags and of every caller array "
                "(constructor arrays incl. aliased ones, threshold/target arrays) around every call, shape / "
                "scalar / elementwise / alias / repeat checks on the implementation's own results, and the "
-               "scalar results compared with the model's runHistory on the same query list.")
+               "scalar results compared with the model's runHistory on the same query list.  In addition the "
+               "no-mutation clause is checked statically on every run: the source is translated to an effect IR, the "
+               "Lean kernel checks the regenerated bodies and SA.Effects.C10_effects_no_mutation applies to every "
+               "covered function (coverage.effect_model lists functions, writes with the provenance of their targets, "
+               "and what is not covered).")
 TRUSTED_BASE = ["Lean 4.33 kernel", "axioms propext/Classical.choice/Quot.sound only",
                 "hand-written model SA/Model/History.lean (+Basic, Threshold) tied to /repo by this run",
                 "ndarray.tobytes()/flags/np.shares_memory report the memory state faithfully",
-                "harness (harness/common.py, props/c10.py) and driver parsing"]
+                "harness (harness/common.py, props/c10.py) and driver parsing",
+                "effect model: the translator harness/effects.py (Python ast -> effect IR) and its classification of NumPy / "
+                "builtin operations into fresh / view / in-place write / unknown (table in the file header); the reading of "
+                "the IR's heap semantics as a model of CPython + NumPy memory (one cell per array buffer / per object "
+                "with everything reachable from it).  NOT trusted: the certificates (abstract environments, callee "
+                "summaries) the translator computes - the kernel re-checks them"]
 ASSUMPTIONS = ["runtime clauses (no mutation, scalar type, identical bytes on repetition) are decided on the "
                "sampled histories only: a pure model cannot exhibit aliasing or in-place writes",
                "thresholds and targets are finite floats or +-inf (no NaN arguments)",
                "exceptions are accepted only where the call is undefined for the object (empty relevant "
                "class, fewer than two distinct points) and must then be identical on repetition",
-               "bootstrap_* is exercised with an identity sampling_method only (deterministic)"]
+               "bootstrap_* is exercised with an identity sampling_method only (deterministic)",
+               "effect model: callables supplied by the caller (metric, sampling_method, f) are the caller's code - what "
+               "they do to the objects handed to them is not attributed to the query; methods are resolved statically "
+               "(no overriding in subclasses); operators (==, <, +) on library objects are pure; functions reached by "
+               "dynamic dispatch (getattr(self, name)) are 'not covered', never assumed pure"]
 
 SHAPES = [(), (), (1,), (3,), (2, 3), (2, 1, 2), (0,), (2, 0), (0, 3)]
 SHAPES_1D = [(), (1,), (3,), (0,)]
@@ -82,6 +103,23 @@ MAX_QUERIES = 250
 
 def n_cases(tier):
     return 1200 if tier == "quick" else 9600
+
+
+# --------------------------------------------------------------------------------------
+# second tie for the no-mutation clause: an effect model regenerated from the source on every run
+# (harness/effects.py -> generated Lean file, checked by the kernel; soundness: SA/Theorems/C10Effects.lean)
+# --------------------------------------------------------------------------------------
+def extra_gate_start():
+    """start the translator + Lean check in a child process; the histories run meanwhile"""
+    import effects
+    return effects.start(common.REPO)
+
+
+def extra_gate_finish(handle):
+    """-> {problems, theorems, obligations, discharged, notes, evidence}; a definite violation is a broken proof
+    obligation (run.py then searches for a failing input with the history runner), unknowns are evidence only"""
+    import effects
+    return effects.gate_result(effects.finish(handle))
 
 
 # --------------------------------------------------------------------------------------
